@@ -149,7 +149,7 @@ impl Prop for C08 {
         "case = (degree 0..=8 uniform, coefficient vector over every finite class (full exponent range, ±0, subnormals, ±MAX, negative, fractional), evaluation point, 0..=12 breakpoints from the lattice generator (duplicates, ±inf, ±0); piece j of the piecewise function uses the coefficient vector rotated by j). Oracle: coefficient i of derivative() within one ulp of the exact (i+1)·c_(i+1) and bit-exact for factors 1,2,4,8 (products that overflow are skipped and labelled); Poly0 -> 0; derivative().evaluate(x) within the C01 bound (+1u for the coefficient rounding) of the exact p'(x) when all terms lie within 2^±900; Segment/Piecewise derivative: same count, same order, every end bit-identical, every piece bit-identical to differentiating that piece alone. Non-trivial: (degree>=2 and some coefficient negative or non-integer) or >=2 pieces.".into()
     }
     fn cases(&self, tier: Tier) -> u64 {
-        tier.pick(300_000, 10_000_000)
+        tier.pick(1_000_000, 15_000_000)
     }
     fn strategy(&self, _tier: Tier) -> BoxedStrategy<Case> {
         let cs = prop_oneof![2 => vec(gen::any_finite(), 9), 1 => gen::coeffs(9, 100), 1 => gen::distinct_numbers(9)];
